@@ -193,10 +193,21 @@ impl Ctx {
         if self.want_desc {
             self.desc = Some(f());
         }
+        if DESCRIBE_ONLY.with(|d| d.get()) {
+            // the runner only wants the rendering of this case (runner::describe_case): leave without running it
+            std::panic::resume_unwind(Box::new(DescribeOnly));
+        }
     }
     pub fn exclude(&mut self, why: &'static str) {
         self.excluded.push(why);
     }
+}
+
+/// payload with which `Ctx::describe` leaves a case in describe-only mode
+pub struct DescribeOnly;
+
+thread_local! {
+    pub static DESCRIBE_ONLY: std::cell::Cell<bool> = const { std::cell::Cell::new(false) };
 }
 
 pub fn hash_of<T: Hash + ?Sized>(t: &T) -> u64 {
